@@ -136,6 +136,10 @@ def run_side(ctx, exe, cases, tag, extra_args=(), timeout=1200, env=None):
         done = [c for c in pending if c.id in recs]
         rest = [c for c in pending if c.id not in recs]
         if not rest:
+            # every record is present but the process ended abnormally (e.g. a LeakSanitizer report at exit)
+            kind = "asan" if ("AddressSanitizer" in se or "LeakSanitizer" in se) else ("ubsan" if "runtime error" in se else ("tsan" if "ThreadSanitizer" in se else "exit-nonzero"))
+            if pending:
+                crashes[pending[-1].id] = {"rc": rc, "stderr": se[-3000:], "kind": kind + "-at-exit"}
             break
         culprit = rest[0]
         kind = "crash"
